@@ -156,7 +156,7 @@ def _c10_vm_sample(d, tier, coq, build, want=150):
 
 CONFIG = {
     "properties_file": "Properties/C10.v",
-    "proof_files": ["Base/Prelude.v", "Proofs/OciCrash.v", "Proofs/OciGC.v", "Proofs/OciCrashGC.v", "Proofs/OciCrashConc.v", "Proofs/OciCrashOff.v"],
+    "proof_files": ["Base/Prelude.v", "Proofs/OciCrash.v", "Proofs/OciGC.v", "Proofs/OciCrashGC.v", "Proofs/OciCrashConc.v", "Proofs/OciCrashOff.v", "Proofs/OciCrashSync.v"],
     "model_files": ["Generated/GC10.v", "Model/OciCrash.v", "Model/OciCrashSpec.v", "Model/OciCrashConc.v"],
     "also_translate": ["C09"],
     "extract": "XC10.v",
@@ -171,7 +171,7 @@ CONFIG = {
         "store configuration: AutoSaveIndex is a parameter of the model (autosave): every positive theorem is stated for the default true; for false the property is refuted (C10_crash_safe_refuted_autosave_off) and recorded as known finding autosave-off-index-dangling; scripts with AutoSaveIndex off are generated and compared with the model, the oracle judges them against the tag map of the last SaveIndex. AutoGC on or off (also on the plain universe). Delete with AutoGC and GC are modelled as one call that performs a LIST of primitive operations in a row (plain deletes; Forget = drop digest references outside the live set + saveIndex): which nodes a cascade or a sweep visits, and in which order, is C09's subject -- C10_crash_safe_composite holds for every list, the harness reads the list off the recorded run (unlink order); C10_gc_crash_safe states GC with bare removals under the explicit hypothesis 'no swept blob is live or carries a reference name'. Go's map order makes some cascades nondeterministic: a kill run whose order differs from the recorded one is judged by the oracle only (counted cascade-order-differs-unjudged, floor 10 %)",
         "ground truth of scripts with GC / AutoGC: the blob set, tag map and index entry set before and after the interrupted call are observed on disk (killed before its first system call / completed run); on the universe with referrers an independent reference (mark phase of GC, survival of everything a tagged manifest reaches, tags of other blobs untouched) judges the completed call (gc-removed-live, gc-kept-garbage, gc-changed-tags, cascade-removed-tag, cascade-removed-live); plain scripts use the generator's simulator (blobs, tags, index entries incl. digest-only ones)",
         "concurrency model (Model/OciCrashConc.v): temporaries are thread-private (unique random names; C10_no_in_place_write), Storage.Push of a target that appeared meanwhile is the same rename (identical verified bytes), the resolver maps are updated atomically (their mutexes), saveIndex = snapshot + write + rename under indexLock; Delete and GC take the write lock and are sequential. C10_conc_tags_origin proves (and the stream's oracle checks) that every reference on disk was there before or is set by a concurrent Tag. The two models are cross-checked on every generated final call (a call scheduled alone to completion in the concurrent model must leave the same directory and resolver as the sequential operation: CONC-MODEL-DIFFERS otherwise), and C10_conc_alone_refines proves that agreement for every call and state",
-        "coverage floors (harness exits non-zero = layer R failure): concurrent kills, kills, earlier crashes, GC/init/reopen/cascade finals, cuts inside multi-write pushes, AutoSaveIndex-off scripts; more than 5 % of the injected kills missing their window or more than 10 % unjudged kill cases fail the run",
+        "coverage floors (harness exits non-zero = layer R failure): concurrent kills, concurrent batches run to completion, kills, earlier crashes, GC/init/reopen/cascade finals, cuts inside multi-write pushes, AutoSaveIndex-off scripts; more than 5 % of the injected kills missing their window or more than 10 % unjudged kill cases fail the run",
         "digest-and-size verification (content.NewVerifyReader, SHA-256) is the Section variable H: a content c matches the name d iff H c = d; no property of H is assumed",
         "encoding/json of index.json / oci-layout is abstracted: a file holds the marshalled entry list as one write unit and parses back to it; Go's map iteration order in saveIndex is the Section variable shuffle with hypothesis In e (shuffle c l) <-> In e l",
         "descriptors: Tag/Delete are also generated with a digest+size-only descriptor (MediaType \"\") of the same blob; the model identifies a blob by its digest (so does Store.delete since its repair). A descriptor whose media type LIES about the content (a layer tagged as a manifest) is a caller inconsistency outside the quantifier; Tag refuses it. References that are digest strings are modelled (TagDig / ATagDigest / AUntagDigest) and generated",
@@ -187,7 +187,7 @@ CONFIG = {
         "strace 6.1 fault injection (-e inject=<syscall>:signal=KILL:when=<n>) and its trace output; the child runs with GOMAXPROCS=1 and the main goroutine locked to the first thread; the actual kill point is re-read from the trace of the killed run",
     ],
     "level_text": "Coq theorem over every history of completed Push/Tag/Untag/Delete/SaveIndex operations, every interrupted operation and every cut of its file-system micro-step list (invariant proof, any verification function, any map iteration order): layout valid, every blob file complete and matching its name, index.json parses and names only existing blobs, index.json / tag mapping is the one before or the one after, no completed effect lost; the same after any number of earlier crashes each followed by oci.New on what was left (tag resolver reloaded from index.json, leftover temporaries in place); completed histories refine the sequential specification of the API; no file a reader looks at is ever written in place (write granularity irrelevant); the pre-repair in-place index write and the swapped Delete order are refuted by witnesses. Delete with AutoGC and GC: every cut of a call made of any list of primitives is a crash state of one primitive between two quiescent states of the call (C10_crash_safe_composite), after any earlier crashes; a crash during the first oci.New is repaired by the next one (C10_init_restartable). The orders the proofs depend on (temp+rename writes of index.json and oci-layout, index before unlink, GC: save before sweep) are re-read from the Go source on every run (translator kind callseq) and configure the model; the thorough tier re-evaluates a sample of kill cases inside Coq with vm_compute. The model is tied to the code by killing a real child process at every system call of the interrupted operation (strace inject) and comparing the directory with the model after the same number of micro-steps, by comparing the recorded system-call script with the model's micro-step list, and by an independent oracle (oci.New + raw readers + generator ground truth)",
-    "level_note": "theorems: full for AutoSaveIndex=true over histories of API calls (expand: media type / decodability decide the primitives) and of primitives, with any number of earlier crashes: Recoverable at every cut, loadIndex succeeds incl. manifest decoding (C10_api_reopen_loads), completed effects survive and nothing is invented across crashes, initialisation restartable after any number of interrupted attempts; Delete-with-AutoGC and GC at the level 'any list of primitives' plus C10_gc_crash_safe / C10_cascade_* whose hypotheses are derived from C09's exact sets (C10_cascade_of_gc_model, C10_gc_of_gc_model; names_agree is the only link between the two models) and checked by the harness on every recorded call. Oracle-only: graph.IndexAll's recursion on load; the index contents of Store.delete's re-entry of a dangling manifest by digest (scripts reaching it are abandoned); descriptor fields of index entries (media type, annotations). AutoSaveIndex=false: the full statement is refuted (known finding) and C10_autosave_off_partial proves what remains (valid layout, complete blobs, a parsing index.json equal to the one before or after, blobs between) for all histories and cuts, checked by the oracle on the NoAutoSave scripts; kernel semantics (atomic rename, no loss at process death) modelled, not verified; JSON encoding and SHA-2 abstracted; concurrent callers (Push/Tag/Untag/SaveIndex under the read lock) have their own model (Model/OciCrashConc.v: thread-private temporaries, atomic resolver updates, saveIndex as the indexLock critical section) with C10_conc_crash_safe over all schedules, tied to the code only by an oracle-only stress stream (goroutines killed at arbitrary moments; the schedule is not observable, so no model comparison); callseq/callguards tie source ORDER and enclosing CONDITIONS of the effects and the lock discipline (C10_source_locks: read lock held for the whole of Push/Tag/Untag/SaveIndex, write lock for Delete/GC, indexLock around snapshot+write in saveIndex; callseq with mark_defer), nothing else of the control flow",
+    "level_note": "theorems: full for AutoSaveIndex=true over histories of API calls (expand: media type / decodability decide the primitives) and of primitives, with any number of earlier crashes: Recoverable at every cut, loadIndex succeeds incl. manifest decoding (C10_api_reopen_loads), completed effects survive and nothing is invented across crashes, initialisation restartable after any number of interrupted attempts; Delete-with-AutoGC and GC at the level 'any list of primitives' plus C10_gc_crash_safe / C10_cascade_* whose hypotheses are derived from C09's exact sets (C10_cascade_of_gc_model, C10_gc_of_gc_model; names_agree is the only link between the two models) and checked by the harness on every recorded call. Oracle-only: graph.IndexAll's recursion on load; the index contents of Store.delete's re-entry of a dangling manifest by digest (scripts reaching it are abandoned); descriptor fields of index entries (media type, annotations). AutoSaveIndex=false: the full statement is refuted (known finding) and C10_autosave_off_partial proves what remains (valid layout, complete blobs, a parsing index.json equal to the one before or after, blobs between) for all histories and cuts, checked by the oracle on the NoAutoSave scripts; kernel semantics (atomic rename, no loss at process death) modelled, not verified; JSON encoding and SHA-2 abstracted; concurrent callers (Push/Tag/Untag/SaveIndex under the read lock) have their own model (Model/OciCrashConc.v: thread-private temporaries, atomic resolver updates, saveIndex as the indexLock critical section) with C10_conc_crash_safe over all schedules, C10_conc_quiescent_synced (when all calls of every batch have returned index.json is exactly the index of the resolver: what indexLock is for; refuted without the lock) and C10_conc_phases_crash_safe (sequential phases and concurrent batches alternate, then crashes anywhere), tied to the code by C10_source_locks (layer T/P) and by an oracle-only stress stream (goroutines killed at arbitrary moments, or run to completion under a 30 s watchdog and then resolver (Tags/Resolve) == index.json; the schedule is not observable, so no model comparison); callseq/callguards tie source ORDER and enclosing CONDITIONS of the effects and the lock discipline (C10_source_locks: read lock held for the whole of Push/Tag/Untag/SaveIndex, write lock for Delete/GC, indexLock around snapshot+write in saveIndex; callseq with mark_defer), nothing else of the control flow",
     "technique": "machine-checked proof in Coq (invariant over file-system micro-steps, every cut of every operation after every history) + model/implementation correspondence by real SIGKILL at every system-call boundary (strace) + independent oracle",
     "explanation": "theorems over all histories/operations/cuts about the micro-step model of content/oci (Store.Push/Tag/Untag/Delete/SaveIndex, Storage.Push/ingest/Delete, writeIndexFile); each run records the system calls of scripted operations on a real oci.Store in a child process, kills the child before every system call of the final operation, and compares directory, script and results with the extracted model; the oracle reopens the killed directory with oci.New and checks blobs, index entries, tag mapping (before/after) and completed effects against the generator's ground truth",
 }
